@@ -102,7 +102,7 @@ class Runner:
                 delivered.append([it.expr(a, env) for a in call.args] + [it.expr(k.value, env) for k in call.keywords])
                 return None if getattr(self, 'decode_returns_none', False) else A.AObj(marker=True)
             return NotImplemented
-        it = A.Interp(hook=hook, skip=is_logger, classes=self.classes, methods=self.methods)
+        it = A.Interp(hook=hook, skip=is_logger, classes=self.classes, methods=self.methods, module=A.ModuleEnv(self.program.mod('decoder').tree))
         args = []
         for p in self.params:
             if p == 'self': args.append(dec)
